@@ -33,7 +33,7 @@ def e2e(ctx):
         acts = []
         for st in beh[1:]:
             a = st["state"]["act"]
-            if a["name"] in ("Pin", "Unpin", "PeerFail"):
+            if a["name"] in ("Pin", "Unpin", "PeerFail", "PinUpdate", "PinExpiring", "StateSyncAll"):
                 acts.append(a)
         if acts:
             scripts.append({"id": "e%d" % k, "peers": ["p1", "p2", "p3"], "cids": ["c1", "c2", "c3"], "acts": acts})
@@ -53,10 +53,13 @@ def e2e(ctx):
     v = json.loads(open(verdict).readline())
     recs = [json.loads(l) for l in open(trace)]
     ctx.extra["e2e_final_states_judged_by_tlc"] = v["n"]
-    ctx.traces_validated += v["n"] - len(set(v["e2e"]) | set(v["alloc"]))
+    ctx.traces_validated += v["n"] - len(set(v["e2e"]) | set(v["alloc"]) | set(v.get("expiry", [])))
     for i in v["e2e"]:
         ctx.violation("C05:e2e:daemon-differs-from-assignment", "end-to-end: after everything settled a live peer's daemon does "
                       "not hold exactly the pins the shared pinset assigns to it", recs[i - 1])
+    for i in v.get("expiry", []):
+        ctx.violation("C05:e2e:expiry", "end-to-end: after a StateSync round an expired pin is still in the pinset, or it was "
+                      "unpinned by more than one peer / by none", recs[i - 1])
     for i in v["alloc"]:
         ctx.violation("C05:e2e:stored-allocation", "end-to-end: a stored pin has an empty or over-max allocation list", recs[i - 1])
     for i in v["stuck"][:1]:
